@@ -21,7 +21,9 @@ Proof. repeat split; reflexivity. Qed.
 (* the order of the checks (exception precedence) the model mirrors *)
 Example tie_C05_raises :
   map snd raises_pulse_sequence_extend =
-  ["except ValueError";
+  ["not all((hasattr(pls, 'c_opers') for pls in pulses))";
+   "except ValueError";
+   "int(qubit) != qubit";
    "not all((pulse.d == d_per_qubit for pulse in single_qubit_pulses))";
    "not all((pulse.d == d_per_qubit ** len(qubits) for pulse, qubits in zip(multi_qubit_pulses, multi_qubit_idx)))";
    "not util.all_array_equal((pulse.dt for pulse in pulses))";
